@@ -86,6 +86,11 @@ impl<R: Skip + Unpin> AsyncSkip for PendNative<R> {
     }
 }
 
+/// a native AsyncSkip reader over `s` suspended according to `sched` (used by C15's adapter histories)
+pub fn pend_native(s: &Sparse, sched: Vec<bool>) -> PendNative<SeekSkipAdapter<SeekReader<'_>>> {
+    PendNative { inner: SeekSkipAdapter(SeekReader::new(s)), ctl: Rc::new(RefCell::new(Ctl { sched, ..Default::default() })) }
+}
+
 /// `AsyncRead + AsyncSeek` (to be wrapped in `SeekSkipAdapter`)
 pub struct PendSeek<'a> {
     inner: SeekReader<'a>,
